@@ -403,6 +403,58 @@ Section Inner.
   Variable s : sview.     (* the struct (or variant struct) whose ghosts / child_parents are consulted *)
   Variable c : ictx.
 
+  (* the `while let Some(member) = members.peek()` loop of struct_init_block_inner, with the three
+     recursive callees abstracted (it calls them only for members with a child path / nested parent) *)
+  Section Loop.
+    Variable fc : option fctx.
+    Variable hint : type_hint.
+    Variable child_frag : list member -> list container -> res (list tok) -> res (list tok * list container).
+    Variable ghost_frag : list member -> list container -> res (list tok * list container).
+    Variable pc_frag : fview -> parent_child_field -> list container -> res (list tok) -> res (list tok * list container).
+
+    Fixpoint member_loop (n : nat) (members : list container) (idx : nat) (acc : list tok) {struct n}
+      : res (list tok * list container) :=
+      match n with
+      | 0 => Oom "fuel"
+      | S n' =>
+          match members with
+          | [] => Ok (acc, [])
+          | m :: rest =>
+              brk <- (match fc with
+                      | Some (cp, _, depth) =>
+                          p <- nth_str (child_path_strs cp) depth ;;
+                          Ok (negb (String.eqb (fc_path m) p) && negb (starts_with (fc_path m) (p ^^ ".")))
+                      | None => Ok false
+                      end) ;;
+              if (brk : bool) then Ok (acc, members) else
+              match fc_data m with
+              | FdField f =>
+                  if negb (is_from (c_kind c)) && (is_some (fv_ghost f) || fv_has_parent f) then member_loop n' rest idx acc
+                  else if is_from (c_kind c) && match fv_ghost f with Some g => negb (is_some (fg_action g)) | None => false end
+                  then member_loop n' rest idx acc
+                  else
+                    '(frag, rest') <-
+                      (match fv_child f with
+                       | Some ch => child_frag ch members (render_struct_line f c hint idx None)
+                       | None => line <- render_struct_line f c hint idx None ;; Ok (line, rest)
+                       end) ;;
+                    member_loop n' rest' (S idx) (acc ++ frag)
+              | FdGhost g =>
+                  match gd_path g with
+                  | None => Panic "ghost-child-path-unwrap"
+                  | Some cp =>
+                      '(frag, rest') <- ghost_frag cp members ;;
+                      member_loop n' rest' (S idx) (acc ++ frag)
+                  end
+              | FdParentChild f p =>
+                  let hint' := if hint_eqb hint HUnspecified then (if c_named c then HStruct else HTuple) else hint in
+                  '(frag, rest') <- pc_frag f p members (render_struct_line f c hint' idx (Some p)) ;;
+                  member_loop n' rest' (S idx) (acc ++ frag)
+              end
+          end
+      end.
+  End Loop.
+
   (* struct_init_block_inner; returns the tokens and the members not consumed *)
   Fixpoint init_inner (fuel : nat) (members : list container) (named : bool) (fc : option fctx)
     {struct fuel} : res (list tok * list container) :=
@@ -414,48 +466,11 @@ Section Inner.
         let depth_opt := option_map (fun x => snd x) fc in
         (* the while loop *)
         '(frags, rest) <-
-          (fix loop (n : nat) (members : list container) (idx : nat) (acc : list tok) {struct n}
-             : res (list tok * list container) :=
-             match n with
-             | 0 => Oom "fuel"
-             | S n' =>
-                 match members with
-                 | [] => Ok (acc, [])
-                 | m :: rest =>
-                     brk <- (match fc with
-                             | Some (cp, _, depth) =>
-                                 p <- nth_str (child_path_strs cp) depth ;;
-                                 Ok (negb (String.eqb (fc_path m) p) && negb (starts_with (fc_path m) (p ^^ ".")))
-                             | None => Ok false
-                             end) ;;
-                     if (brk : bool) then Ok (acc, members) else
-                     match fc_data m with
-                     | FdField f =>
-                         if negb (is_from (c_kind c)) && (is_some (fv_ghost f) || fv_has_parent f) then loop n' rest idx acc
-                         else if is_from (c_kind c) && match fv_ghost f with Some g => negb (is_some (fg_action g)) | None => false end
-                         then loop n' rest idx acc
-                         else
-                           '(frag, rest') <-
-                             (match fv_child f with
-                              | Some ch => child_fragment fuel' ch members depth_opt hint (render_struct_line f c hint idx None)
-                              | None => line <- render_struct_line f c hint idx None ;; Ok (line, rest)
-                              end) ;;
-                           loop n' rest' (S idx) (acc ++ frag)
-                     | FdGhost g =>
-                         match gd_path g with
-                         | None => Panic "ghost-child-path-unwrap"
-                         | Some cp =>
-                             '(frag, rest') <- child_fragment fuel' cp members depth_opt hint (Ok []) ;;
-                             loop n' rest' (S idx) (acc ++ frag)
-                         end
-                     | FdParentChild f p =>
-                         let hint' := if hint_eqb hint HUnspecified then (if c_named c then HStruct else HTuple) else hint in
-                         '(frag, rest') <- parent_child_fragment fuel' f p members (pcf_named p) depth_opt
-                                             (render_struct_line f c hint' idx (Some p)) ;;
-                         loop n' rest' (S idx) (acc ++ frag)
-                     end
-                 end
-             end) (S (List.length members)) members 0 [] ;;
+          member_loop fc hint
+            (fun ch ms line => child_fragment fuel' ch ms depth_opt hint line)
+            (fun cp ms => child_fragment fuel' cp ms depth_opt hint (Ok []))
+            (fun f p ms line => parent_child_fragment fuel' f p ms (pcf_named p) depth_opt line)
+            (S (List.length members)) members 0 [] ;;
         ghosts <-
           (if negb (is_from (c_kind c)) then
              match sv_ghosts s with
